@@ -268,6 +268,17 @@ pub fn verdict(rng: &mut Rng, stack: bool, extra: usize) -> Vec<Case> {
         ast.insert(i, orig(0x3000));
         out.push(Case { fam: "verdict", ast });
     }
+    // a literal PC offset that points at the words just before the image: -(n), -(n+1), -(n+2) on statement n
+    for n in 1..5i64 {
+        for d in [-n, -(n + 1), -(n + 2)] {
+            for k in ["br", "ld", "lea", "st", "jsr"] {
+                let mut ast = filler((n - 1) as usize, rng);
+                ast.push(if k == "br" { br_lit(7, d) } else { pc_lit(k, 1, d) });
+                ast.push(plain("halt"));
+                out.push(Case { fam: "verdict", ast });
+            }
+        }
+    }
     // .orig repeated with the SAME value (each occurrence spelt independently) is still a second .orig
     for (i, j) in [(0usize, 1usize), (0, 2), (1, 3)] {
         for v in [0x3000i64, 0xFFFF, 0] {
